@@ -175,6 +175,7 @@ def run_case(case, ctx, pool_kind):
                                 content=lambda f: f.attrs["id"].encode())
         order = sorted(pop.files, key=lambda f: (f.t0, f.t1))
         ids = [int(f.attrs["id"]) for f in order]
+        by_id = {int(f.attrs["id"]): f for f in order}
         delays = {}
         if pool_kind != "sim":
             delays = {i: d / 1000.0 for i, d in enumerate(case["delays"])}
@@ -192,7 +193,16 @@ def run_case(case, ctx, pool_kind):
             ctx.check([int(f.attr["id"]) for f in found] == ids,
                       "setup/find-order", "find() disagrees with the harness")
             if case["select"] == "files":
-                kwargs["files"] = found
+                subset = case.get("subset")
+                if subset is not None:
+                    pick = sorted({i % n for i in subset})
+                    found = [found[i] for i in pick]
+                    ids = [ids[i] for i in pick]
+                    ctx.label("files-subset")
+                    if not pick:
+                        ctx.label("files-empty")
+                kwargs["files"] = list(found) if case.get(
+                    "files_as", "list") == "list" else tuple(found)
                 ctx.label("files-arg")
             else:
                 k = case["bundle"]
@@ -294,8 +304,7 @@ def run_case(case, ctx, pool_kind):
                     if bundles is None:
                         ctx.check(int(info.attr["id"]) == unit[0]
                                   and list(info.times) == [
-                                      order[ids.index(unit[0])].t0,
-                                      order[ids.index(unit[0])].t1],
+                                      by_id[unit[0]].t0, by_id[unit[0]].t1],
                                   "results/wrong-file-info", where)
                     else:
                         ctx.check([int(f.attr["id"]) for f in info] == unit,
@@ -316,7 +325,8 @@ def run_case(case, ctx, pool_kind):
                         reads[int(fid)] = reads.get(int(fid), 0) + 1
         if on_content:
             if error is None:
-                ctx.check(all(reads.get(i, 0) == 1 for i in ids),
+                ctx.check(all(reads.get(i, 0) == 1 for i in ids)
+                          and set(reads) <= set(ids),
                           "reads/not-exactly-once", lambda: (
                               "reads=%r; %s" % (reads, where())))
             else:
@@ -546,6 +556,18 @@ def sampled_cases(draw, real=False):
         fail_read=fail_read, error_to_warning=draw(st.booleans()),
         fail_func=draw(st.one_of(st.none(), st.none(),
                                  st.integers(0, n - 1))))
+    if select == "files" and draw(st.booleans()):
+        case["subset"] = draw(st.one_of(
+            st.just([]), st.lists(st.integers(0, n - 1), max_size=n),
+            st.lists(st.integers(0, n - 1), max_size=n)))
+        case["files_as"] = draw(st.sampled_from(["list", "tuple"]))
+        if method == "collect" and not case["subset"]:
+            case["subset"] = [0]     # collect() needs at least one content
+        if method == "collect":
+            picked = {i % n for i in case["subset"]}
+            case["fail_read"] = [i for i in case["fail_read"]
+                                 if i not in picked] \
+                if picked <= set(case["fail_read"]) else case["fail_read"]
     if method == "collect":
         # collect() needs at least one readable file (documented use)
         readable = [i for i in range(n) if i not in case["fail_read"]]
@@ -575,10 +597,12 @@ def align_cases(draw):
     total = len(sets[0]) + len(sets[1])
     return {"sets": sets, "workers": draw(st.integers(1, 4)),
             "perm": draw(st.permutations(list(range(total)))),
-            "skip_errors": draw(st.booleans()),
+            "skip_errors": draw(st.integers(0, 3)) > 0,
             "return_info": draw(st.booleans()),
-            "fail_read": draw(st.lists(st.integers(0, total - 1), max_size=1))
-            if draw(st.integers(0, 2)) == 0 else []}
+            "fail_read": draw(st.lists(st.one_of(
+                st.integers(0, len(sets[0]) - 1), st.integers(0, total - 1)),
+                min_size=1, max_size=2, unique=True))
+            if draw(st.booleans()) else []}
 
 
 def suites(tier):
